@@ -211,7 +211,7 @@ def run(tier, replay=None):
     binary = os.path.join(bindir, "hjs")
     seed = vlib.seed()
     rng = random.Random(seed)
-    workers = 8
+    workers = int(os.environ.get("C01_TLC_WORKERS", "8"))     # BUILDERS.md: TLC <= 8 workers
     runner = Runner(ck, binary, workers)
     budget = rng.choice([1, 3, 17, 256, 4096])
 
